@@ -51,7 +51,9 @@ Proof.
   assert (E6 : validate M_MCS true false None rs = rs) by (now rewrite validate_solved).
   assert (E7 : post_process OR rs = rs) by (unfold post_process; cbn [sby rs]; now rewrite String.eqb_refl).
   assert (E8 : validate M_MCS true true (Some FINAL_MSG) rs = rs) by (now rewrite validate_solved).
-  unfold RowLocal.F. now rewrite E1, E2, E3, E4, E5, E6, E7, E2, E8.
+  assert (E9 : restore OR rs rs = rs).
+  { unfold restore, pp_fires. cbn [sby rs]. now rewrite String.eqb_refl. }
+  unfold RowLocal.F, RowLocal.G6. now rewrite E1, E2, E3, E4, E5, E6, E7, E2, E9, E8.
 Qed.
 
 (* ---- C04, converse: labelled input-balanced only if the input was balanced, nothing added *)
@@ -67,11 +69,19 @@ Proof.
   rewrite (E (rb_row r)), rb_row_norxn, <- E. reflexivity.
 Qed.
 
+Lemma is_input_restore a b : is_input_row (restore OR a b) = is_input_row b.
+Proof.
+  assert (E : forall x, is_input_row x = is_input_row (norxn x)) by (intros x; destruct x; reflexivity).
+  rewrite (E (restore OR a b)), restore_norxn, <- E. reflexivity.
+Qed.
+Lemma methods_restore a b : methods_ok b -> methods_ok (restore OR a b).
+Proof. intros H. apply methods_norxn. rewrite restore_norxn. now apply methods_norxn. Qed.
+
 Theorem input_balanced_only_if i s : is_input_row (F (fresh i s)) = good s.
 Proof.
   destruct (good s) eqn:G.
   - rewrite balanced_passthrough by exact G. reflexivity.
-  - unfold RowLocal.F, fresh. rewrite first_pass_row. fold (bal s). fold (good s). rewrite G.
+  - unfold RowLocal.F, RowLocal.G6, fresh. rewrite first_pass_row. fold (bal s). fold (good s). rewrite G.
     set (r1 := mkRow i s s false None None (carbon_of OR s) None None None).
     assert (M1 : methods_ok r1) by (split; simpl; [discriminate|reflexivity]).
     assert (M2 := methods_rb_row _ M1).
@@ -79,10 +89,12 @@ Proof.
     assert (M4 := methods_mcs_find OR _ M3).
     assert (M5 := methods_mcs_impute OR _ M4).
     assert (M6 := methods_validate OR M_MCS true false None _ (or_intror (or_intror eq_refl)) M5).
+    set (x6 := validate M_MCS true false None (mcs_impute OR (mcs_find OR (validate M_RB false true None (rb_row r1))))) in *.
     assert (M7 := methods_post_process OR _ M6).
     assert (M8 := methods_rb_row _ M7).
+    assert (M9 := methods_restore x6 _ M8).
     rewrite sby_validate_other by (auto; discriminate).
-    rewrite is_input_rb_row. unfold is_input_row at 1. rewrite sby_post_process. fold (is_input_row (validate M_MCS true false None (mcs_impute OR (mcs_find OR (validate M_RB false true None (rb_row r1)))))).
+    rewrite is_input_restore, is_input_rb_row. unfold is_input_row at 1. rewrite sby_post_process. fold (is_input_row x6). unfold x6.
     rewrite sby_validate_other by (auto; discriminate).
     unfold is_input_row at 1. rewrite sby_mcs_impute, sby_mcs_find.
     fold (is_input_row (validate M_RB false true None (rb_row r1))).
@@ -96,7 +108,7 @@ Qed.
 Definition before_pp (r : row) : row :=
   validate M_MCS true false None (mcs_impute OR (mcs_find OR
      (validate M_RB false true None (rb_row (validate M_INPUT true false None r))))).
-Lemma F_split r : F r = validate M_MCS true true (Some FINAL_MSG) (rb_row (post_process OR (before_pp r))).
+Lemma F_split r : F r = validate M_MCS true true (Some FINAL_MSG) (restore OR (before_pp r) (rb_row (post_process OR (before_pp r)))).
 Proof. reflexivity. Qed.
 
 Definition J (r : row) : Prop := solved r = true -> bal (rxn r) = true.
@@ -162,28 +174,33 @@ Proof.
   - apply J_mcs_find. apply validate_J. apply J_rb_row. apply validate_J. intros X; discriminate.
 Qed.
 
-Theorem solved_rows_validated i s :
-  solved (F (fresh i s)) = true ->
-  bal (rxn (F (fresh i s))) = true \/
-  (solved (before_pp (fresh i s)) = true /\ sby (before_pp (fresh i s)) <> Some M_INPUT /\
-   pp OR (rxn (before_pp (fresh i s))) <> None).
+Lemma pp_quiet b : pp_fires OR b = false -> post_process OR b = b.
 Proof.
-  rewrite F_split. set (b := before_pp (fresh i s)). intros S.
-  pose proof (J_before_pp i s) as Jb. fold b in Jb.
-  destruct (solved b) eqn:Sb.
-  - (* solved before post-processing *)
-    assert (KEEP : post_process OR b = b -> bal (rxn (validate M_MCS true true (Some FINAL_MSG) (rb_row (post_process OR b)))) = true).
-    { intros E. rewrite E. rewrite rb_row_balanced by (apply Jb; exact Sb).
-      rewrite validate_solved by exact Sb.
-      assert (RX : forall x c, rxn (set_carbon x c) = rxn x) by (intros [] ?; reflexivity).
-      rewrite RX. apply Jb. exact Sb. }
-    unfold post_process in KEEP. unfold post_process.
-    destruct (sby b) as [m|] eqn:Eb; [|left; apply KEEP; reflexivity].
-    destruct (String.eqb_spec m M_INPUT) as [->|Nm]; [left; apply KEEP; reflexivity|].
-    destruct (pp OR (rxn b)) as [c|] eqn:Ep; [|left; apply KEEP; reflexivity].
-    right. repeat split; congruence.
-  - (* not solved before post-processing: solved by the final validation itself *)
-    left. apply validate_newly; auto. rewrite solved_rb_row, solved_post_process. exact Sb.
+  unfold pp_fires, post_process. destruct (sby b) as [m|]; auto. destruct (String.eqb m M_INPUT); auto.
+  destruct (pp OR (rxn b)); [discriminate|reflexivity].
+Qed.
+Lemma balanced_rxn_bal x : balanced_rxn OR x = true -> bal x = true.
+Proof. unfold balanced_rxn, bal. intros H. apply andb_prop in H. tauto. Qed.
+Lemma solved_restore a b : solved (restore OR a b) = solved b.
+Proof.
+  assert (Q : forall x, solved x = solved (norxn x)) by (intros x; destruct x; reflexivity).
+  rewrite (Q (restore OR a b)), restore_norxn, <- Q. reflexivity.
+Qed.
+(* the row after the second rule-based run and the fall-back to the validated reaction *)
+Lemma J_after_restore b : J b -> J (restore OR b (rb_row (post_process OR b))).
+Proof.
+  intros Jb S. rewrite solved_restore, solved_rb_row, solved_post_process in S.
+  unfold restore. destruct (pp_fires OR b) eqn:PF; cbn [andb].
+  - destruct (balanced_rxn OR (rxn (rb_row (post_process OR b)))) eqn:BZ; cbn [negb].
+    + now apply balanced_rxn_bal.
+    + assert (RX : forall x c, rxn (set_rxn x c) = c) by (intros [] ?; reflexivity). rewrite RX. now apply Jb.
+  - rewrite (pp_quiet b PF). rewrite rb_row_balanced by (now apply Jb). now apply Jb.
+Qed.
+
+(* C01, full strength on the model of the repaired pipeline *)
+Theorem solved_rows_validated i s : solved (F (fresh i s)) = true -> bal (rxn (F (fresh i s))) = true.
+Proof.
+  rewrite F_split. apply validate_J. apply J_after_restore. apply J_before_pp.
 Qed.
 
 End B.
